@@ -272,6 +272,23 @@ _NMS = (" NMS ADPCM (16/24/32 kbit/s, RAW and WAV) is modelled bit for bit (SfMo
         "C06Nms.lean (reads deliver the stream slice for every partition and caller type, end-of-data rule, every sf_seek refused, N <= F < N + 160, short-final-block rule after the repair of KF-NMS-SHORT-BLOCK).")
 for _p in ("C05", "C06", "C07"):
     CLAIMED[_p]["text"] += _NMS
+# ---- round 4 (worker c16c19): additions to the claims of C16 / C09 / C15 / C19 (appended, the texts above are unchanged) ----
+CLAIMED["C16"]["text"] += (
+    " Round 4: Sf.LedgerSites lists every allocation site of the open / parse / init / close functions with its owner (psf_close, container hook, codec hook, same function); "
+    "site_released, failed_open_clean_at_every_point, close_on_failing_io_releases_all, late_hook_rule_leaks (the AIFF close hook installed behind the parser loses markstr). Campaigns added: "
+    "late-failing opens (the library's own output with each metadata item alone x damage behind every allocating chunk: cuts, moved / duplicated damaged format chunk, field sweeps, audio chunk "
+    "renamed / lying / cut; every header byte of the chunk-less containers), their accepted prefixes peeked against the model after every parsed chunk, and sf_close on failing I/O for every codec "
+    "(a fault at every callback of the close; EFBIG through RLIMIT_FSIZE and EBADF on the descriptor routes).")
+CLAIMED["C09"]["text"] += " Round 4: the failed-open campaign also runs the late-failing opens of vlib/lateopen.py (rejection after each allocating chunk of each container)."
+CLAIMED["C15"]["text"] += (
+    " Round 4: stage 4 runs every representative file through a pipe (sf_open_fd on a non-seekable descriptor) that ends at every header byte / chunk boundary, delivers 1 / 7 / 4096 bytes at a "
+    "time, or carries a skip larger than the 100 KiB header cache; a call that does not return is flagged by the check itself (harness alarm).")
+CLAIMED["C19"]["text"] += (
+    " Round 4: Sf.FdWorld models the process-wide descriptor table (lowest free number on open; close frees a number whatever it is) and the numbers each SF_PRIVATE keeps (file, SD2 resource "
+    "fork, ALAC spool file): step_isolated / caller_step_isolated / run_isolated (a call on slot i changes no descriptor of another slot nor one the library does not own, for every history), "
+    "keeps_rule_closes_foreign (psf_close_rsrc without the reset closes another handle's descriptor). Correspondence exact: the descriptor table printed by the harness after every operation "
+    "(fstat identity of every number) equals `sfmodel fdworld` for all 90 open/close orders of handle triples (sf_open, sf_open_fd close_desc 1/0, SD2, ALAC, r/w/rw) with sentinel descriptors; "
+    "the isolation predicate and each handle's solo-vs-merged results are judged on the implementation's transcripts.")
 
 def main():
     checks = []
